@@ -1,7 +1,22 @@
 import PegVerif.Props.C01
+import PegVerif.Proofs.InlineLemmas
 /-
-  C02 — property theorems.  The refinement theorem R and its corollaries are added here as they are
-  proved; until then this property rests on C01's semantic facts plus the ties named in MANIFEST.json.
+  C02 — `-inline` does not change what the generated parser accepts or publishes.
+
+  `-inline` compiles a rule that has exactly one reference in place of that reference and emits no
+  function for it (`slotOf`), except for the rule emitted with label 0.  In the model this is the
+  source transformation `expandInline` (`name n ↦ inl n body`); `expandG o G` is the grammar whose
+  bodies are the expanded ones.
+
+  * `C02_inline_preserves_semantics`  the expanded grammar has exactly the derivations of `G`
+                                      (result, derivation forest, attempted tokens);
+  * `C02_inline_generated_parser`     the program emitted with `-inline` is judged against the
+                                      semantics of the ORIGINAL grammar: same verdict, same
+                                      prefix, same token list as prescribed by `Eval G`;
+  * `C02_inline_same_as_default`      two runs, with and without `-inline`, agree.
+
+  `World` for the inlined program is discharged in Proofs/InlineLemmas.lean
+  (`compileAll_world_inline'`); the refinement theorem `R_rule_all` is the one used for C01.
 -/
 namespace PegVerif
 
@@ -9,6 +24,145 @@ theorem C02_semantics_deterministic {G ρ inp e p r1 ev1 r2 ev2}
     (h1 : Eval G ρ inp e p r1 ev1) (h2 : Eval G ρ inp e p r2 ev2) : r1 = r2 ∧ ev1 = ev2 :=
   Eval_det h1 h2
 
+/-- The source transformation of `-inline` preserves the PEG semantics of every expression, in
+    both directions: same result, same derivation forest, same attempted tokens. -/
+theorem C02_inline_preserves_semantics (o : Opts) (G : Grammar) (ρ : String → Nat → Bool)
+    (inp : List Sym) (e : Expr) (p : Nat) (res : Res) (evs : List Token) :
+    Eval (expandG o G) ρ inp e p res evs ↔ Eval G ρ inp e p res evs :=
+  Eval_expandG_iff
+
+/-- … and an expanded expression means what the expression means. -/
+theorem C02_expandInline_preserves_semantics (o : Opts) (G : Grammar) (ρ : String → Nat → Bool)
+    (inp : List Sym) (cnt : String → Nat) (fuel : Nat) (e : Expr) (p : Nat) (res : Res)
+    (evs : List Token) :
+    Eval (expandG o G) ρ inp (expandInline G cnt fuel e) p res evs ↔ Eval G ρ inp e p res evs :=
+  Eval_expandInline_iff
+
+/-- **C02 for the generator itself** (`-inline`, no `-switch`, AST mode; memoisation enabled or
+    disabled): for every linked grammar that passes the decidable check `GrammarOKI` (terminals
+    below the end symbol, every reference left in an expanded body of an emitted rule is to a rule
+    that has a function under `-inline`) and is `plain`, every input of valid runes and every rule
+    with an emitted function: each run of the function the MODEL GENERATOR emits with `-inline`
+    returns true exactly when the PEG semantics OF THE ORIGINAL GRAMMAR matches a prefix, stops at
+    the end of exactly that prefix, and publishes exactly the post-order of the derivation forest —
+    the statement the default parser satisfies by `C01_generated_parser` / `C03_tokens`. -/
+theorem C02_inline_generated_parser (G : Grammar) (o : Opts) (cfg : Cfg) (inp : List Sym)
+    (hinl : o.inline = true) (hsw : o.switch = false) (hast : o.ast = true)
+    (hcfg : cfg.ast = true)
+    (hinp : ∀ c ∈ inp, c ≠ END) (hG : GrammarOKI G = true) (hL : LinkedOK G = true) (hplain : G.plain)
+    {n cr res evs out s'} (hfind : (compileAll o G).find n = some cr)
+    (hev : Eval G cfg.rho inp (.name n) 0 res evs)
+    (hrun : Exec (compileAll o G) cfg inp cr 0 St.init Frame.empty (out, s')) :
+    (out = .ret true ↔ ∃ p' f, res = .ok p' f) ∧
+    (∀ p' f, res = .ok p' f → s'.pos = p' ∧ s'.tree.take s'.ti = postorderL f) ∧
+    (out = .ret false ↔ res = .fail) ∧ out ≠ .panic := by
+  have hW := compileAll_world_inline' (cfg := cfg) (inp := inp) hinl hsw hast hcfg hinp hG hL hplain
+  have h := R_rule_all hW hfind (Eval_expandG hev) rfl (Nat.zero_le _) (by simp [St.init])
+    memoOK_init hrun
+  cases res with
+  | ok p' f =>
+    obtain ⟨h1, h2, _, h4, _⟩ := h
+    subst h1
+    refine ⟨⟨fun _ => ⟨p', f, rfl⟩, fun _ => rfl⟩, ?_, ⟨?_, ?_⟩, ?_⟩
+    · intro p'' f'' e; cases e
+      exact ⟨h2, by simpa [St.init] using h4⟩
+    · intro e; cases e
+    · intro e; cases e
+    · intro e; cases e
+  | fail =>
+    obtain ⟨h1, _⟩ := h
+    subst h1
+    refine ⟨⟨?_, ?_⟩, ?_, ⟨fun _ => rfl, fun _ => rfl⟩, ?_⟩
+    · intro e; cases e
+    · rintro ⟨_, _, e⟩; cases e
+    · intro _ _ e; cases e
+    · intro e; cases e
+
+/-- … and such a run exists: the `-inline` parser terminates whenever the semantics of the original
+    grammar assigns an outcome. -/
+theorem C02_inline_run_exists (G : Grammar) (o : Opts) (cfg : Cfg) (inp : List Sym)
+    (hinl : o.inline = true) (hsw : o.switch = false) (hast : o.ast = true)
+    (hcfg : cfg.ast = true)
+    (hinp : ∀ c ∈ inp, c ≠ END) (hG : GrammarOKI G = true) (hL : LinkedOK G = true) (hplain : G.plain)
+    {n cr res evs} (hfind : (compileAll o G).find n = some cr)
+    (hev : Eval G cfg.rho inp (.name n) 0 res evs) :
+    ∃ out s', Exec (compileAll o G) cfg inp cr 0 St.init Frame.empty (out, s') :=
+  C01_run_exists (compileAll_world_inline' hinl hsw hast hcfg hinp hG hL hplain) hfind
+    (Eval_expandG hev)
+
+/-- **`-inline` is unobservable**: for a rule `n` that has a function in both programs, a run of
+    the default parser and a run of the `-inline` parser from a fresh state on the same input agree
+    on the verdict, the end position, the published token list (`tree[:tokenIndex]`) and the error
+    token (`maxToken`), whenever the PEG semantics assigns `n` an outcome at all (if it assigns none
+    — left recursion — neither theorem says anything about a run). -/
+theorem C02_inline_same_as_default (G : Grammar) (o : Opts) (cfg : Cfg) (inp : List Sym)
+    (hsw : o.switch = false) (hast : o.ast = true) (hcfg : cfg.ast = true)
+    (hinp : ∀ c ∈ inp, c ≠ END) (hG : GrammarOK G = true) (hGI : GrammarOKI G = true)
+    (hL : LinkedOK G = true) (hplain : G.plain)
+    {n cr1 cr2 res evs out1 s1 out2 s2}
+    (hfind1 : (compileAll { o with inline := false } G).find n = some cr1)
+    (hfind2 : (compileAll { o with inline := true } G).find n = some cr2)
+    (hev : Eval G cfg.rho inp (.name n) 0 res evs)
+    (hrun1 : Exec (compileAll { o with inline := false } G) cfg inp cr1 0 St.init Frame.empty (out1, s1))
+    (hrun2 : Exec (compileAll { o with inline := true } G) cfg inp cr2 0 St.init Frame.empty (out2, s2)) :
+    out1 = out2 ∧ out1 ≠ .panic ∧ s1.pos = s2.pos ∧ s1.ti = s2.ti ∧
+    s1.tree.take s1.ti = s2.tree.take s2.ti ∧ s1.maxTok = s2.maxTok := by
+  have hW1 := compileAll_world (o := { o with inline := false }) (cfg := cfg) (inp := inp)
+    hsw rfl hast hcfg hinp hG hL (fun _ h => alwaysSucceeds_sound hplain h)
+  have hW2 := compileAll_world_inline' (o := { o with inline := true }) (cfg := cfg) (inp := inp)
+    rfl hsw hast hcfg hinp hGI hL hplain
+  have h1 := R_rule_all hW1 hfind1 hev rfl (Nat.zero_le _) (by simp [St.init]) memoOK_init hrun1
+  have h2 := R_rule_all hW2 hfind2 (Eval_expandG hev) rfl (Nat.zero_le _) (by simp [St.init])
+    memoOK_init hrun2
+  cases res with
+  | ok p' f =>
+    obtain ⟨a1, a2, a3, a4, _, a6, _⟩ := h1
+    obtain ⟨b1, b2, b3, b4, _, b6, _⟩ := h2
+    subst a1 b1
+    refine ⟨rfl, ?_, by rw [a2, b2], by rw [a3, b3], by rw [a4, b4], by rw [a6, b6]⟩
+    intro e; cases e
+  | fail =>
+    obtain ⟨a1, a2, a3, _, _, a6, _⟩ := h1
+    obtain ⟨b1, b2, b3, _, _, b6, _⟩ := h2
+    subst a1 b1
+    refine ⟨rfl, ?_, by rw [a2, b2], by rw [a3, b3], by rw [a3, b3]; rfl, by rw [a6, b6]⟩
+    intro e; cases e
+
+/-! Non-vacuity.  `S <- A B B*`, `A <- 'a'`, `B <- 'b'`: `A` has one reference and is compiled in
+    place (no function), `B` has two and keeps its function, `S` is the rule emitted with label 0. -/
+def exGI : Grammar := { rules := [
+  { name := "S", id := 0, body := .ipush (.seq [.name "A", .name "B", .star (.name "B")]) "S" },
+  { name := "A", id := 1, body := .ipush (.chr 97) "A" },
+  { name := "B", id := 2, body := .ipush (.chr 98) "B" }] }
+
+/-- The hypotheses of `C02_inline_generated_parser` are satisfiable, and something is inlined. -/
+example : GrammarOKI exGI = true ∧ GrammarOK exGI = true ∧ LinkedOK exGI = true ∧ exGI.plain ∧
+    ((compileAll { inline := true } exGI).find "S").isSome = true ∧
+    ((compileAll { inline := true } exGI).find "B").isSome = true ∧
+    ((compileAll { inline := true } exGI).find "A").isSome = false ∧
+    ((compileAll { inline := false } exGI).find "A").isSome = true :=
+  ⟨by decide, by decide, by decide, Grammar.plain_of_all (by decide), by decide, by decide,
+    by decide, by decide⟩
+
+/-- The body `-inline` compiles for `S` carries the body of `A` in place. -/
+example : (expandG { inline := true } exGI).body "S" =
+    some (.ipush (.seq [.inl "A" (.ipush (.chr 97) "A"), .name "B", .star (.name "B")]) "S") := by
+  rfl
+
+/-- `GrammarOKI` is not trivially true: a reference that stays a call to a stub (`nil`) rule, which
+    never gets a function, is rejected. -/
+example : GrammarOKI { rules := [
+    { name := "S", id := 0, body := .ipush (.seq [.name "B", .name "B"]) "S" },
+    { name := "B", id := 1, body := .nil }] } = false := by decide
+
+example : ∃ f evs, Eval exGI (fun _ _ => true) [97, 98, 98] (.name "S") 0 (.ok 3 f) evs :=
+  ⟨_, _, evalF_sound 20 _ _ _ _ (by rfl)⟩
+
 end PegVerif
 
 #print axioms PegVerif.C02_semantics_deterministic
+#print axioms PegVerif.C02_inline_preserves_semantics
+#print axioms PegVerif.C02_expandInline_preserves_semantics
+#print axioms PegVerif.C02_inline_generated_parser
+#print axioms PegVerif.C02_inline_run_exists
+#print axioms PegVerif.C02_inline_same_as_default
